@@ -69,11 +69,11 @@ func c22dup(run *ev.Run) {
 		run.Extra["accepted_blocks"] = d.Accepted
 		run.Extra["rejected_blocks"] = d.Rejected
 		run.Extra["contract_credits_a_second_payFees_in_the_same_block"] = d.SecondPaymentCredits
-		if d.Accepted == 0 || d.Rejected == 0 {
-			ev.Fatal("vacuous: accepted %d rejected %d", d.Accepted, d.Rejected)
-		}
 		for _, v := range d.Violations {
 			run.Violation(v.Key, v.What, map[string]any{"block": v.Case})
+		}
+		if len(d.Violations) == 0 && (d.Accepted == 0 || d.Rejected == 0) {
+			ev.Fatal("vacuous: accepted %d rejected %d", d.Accepted, d.Rejected)
 		}
 		run.Assumptions = append(run.Assumptions, "the block is validated by the generator's own miner.Chain (current round 0, so no round-mismatch cancellation)", "transactions are executed one after the other by Chain.UpdateState before validation, as a generator does")
 		return
